@@ -51,7 +51,7 @@ def _set_events(interp):
 
 
 def _told_payload(ev, p):
-    return And(S.eq(ev[1], p["index"]), S.eq(ev[2], p["sub"]), ev[4] is True,
+    return And(S.eq(ev[1], p["index"]), S.eq(ev[2], p["sub"]), S.is_true(ev[4]),
                _prefix_or_empty(ev[3], p["data"], S.blen(p["data"])) if isinstance(p["data"], LBytes)
                else (S.is_byteslike(ev[3]) and S.same_bytes(ev[3], p["data"])))
 
